@@ -390,12 +390,13 @@ def forgetAll (fs : FS) (k : Kern) (lib : Lib) : List P → Option (Kern × Lib)
     | none => none
     | some (k2, lib2, _) => forgetAll fs k2 lib2 rest
 
+/-- one grouped item through the emitter (nothing more once it has stopped) -/
+def emitStep (fs : FS) (recursive full : Bool) (acc : List PEv × Bool) (g : Grouped) : List PEv × Bool :=
+  if acc.2 then acc else ((acc.1 ++ (emit fs recursive full g).1), (emit fs recursive full g).2)
+
 /-- events of the grouped items, up to and including the one that stops the emitter -/
 def emitAll (fs : FS) (recursive full : Bool) (gs : List Grouped) : List PEv × Bool :=
-  gs.foldl (fun (acc : List PEv × Bool) g =>
-      if acc.2 then acc else
-      let (e, st) := emit fs recursive full g
-      (acc.1 ++ e, st)) ([], false)
+  gs.foldl (emitStep fs recursive full) ([], false)
 
 /-- the reader drops the kernel's watch-removed markers before queueing -/
 def Grouped.keep : Grouped → Bool
